@@ -62,12 +62,18 @@ def run(cmd, cwd=None, timeout=3600, env=None, input_=None):
     return proc.returncode, proc.stdout, time.time() - t0
 
 
+def lake_env():
+    env = dict(os.environ)
+    env.setdefault('LEAN_NUM_THREADS', os.environ.get('VERIF_LAKE_THREADS', '4'))   # memory: 0.7-1.8 GB per lean process
+    return env
+
+
 def lake_build(targets, timeout=3000):
     """Build targets one by one (so that one broken proof module does not hide the others). -> {target: (ok, log)}"""
     out = {}
     with lake_lock():
         for tgt in targets:
-            rc, log, _ = run(['lake', 'build', tgt], cwd=LEAN_DIR, timeout=timeout)
+            rc, log, _ = run(['lake', 'build', tgt], cwd=LEAN_DIR, timeout=timeout, env=lake_env())
             out[tgt] = (rc == 0, log)
     return out
 
